@@ -3,7 +3,7 @@
    exactly and order-preservingly into the model's Q (inf -> 2^1100), NaN -> 0 (only uninitialised fields).
      A final|none allowInterp everyStep limit|none projInterp      cfg of the AbstractIntegratorRep model
      S comm tAdv tInterp interp tLow tHigh startCI advProj intProj   set the model state
-     O t1 ev lo hi proj                                             append an oracle answer (one takeOneStep)
+     O t1 ev lo hi proj t1att                                       append an oracle answer (one takeOneStep)
      R report sched                                                 stepTo -> one result line, clears the oracle queue
      I low term                                                     reinitialize
      P                                                              print the current state
@@ -70,8 +70,8 @@ let () =
      | ["S"; cm; ta; ti; ip; lo; hi; ci; ap; ipj] ->
          st0 := { comm_st = comm_of (int_of_string cm); tAdv = qf ta; tInterp = qf ti; interp = bl ip; tLow = qf lo;
                   tHigh = qf hi; startCI = bl ci; advProj = bl ap; intProj = bl ipj }
-     | ["O"; t1; ev; lo; hi; pj] ->
-         orc := !orc @ [{ t1 = qf t1; ev = (if bl ev then Some (qf lo, qf hi) else None); proj = bl pj }]
+     | ["O"; t1; ev; lo; hi; pj; ta] ->
+         orc := !orc @ [{ t1 = qf t1; ev = (if bl ev then Some (qf lo, qf hi) else None); proj = bl pj; t1att = qf ta }]
      | ["R"; rep; sch] ->
          (match stepTo !cfg0 !st0 (qf rep) (qf sch) !orc with
           | Ok (((st, s'), rest), us) ->
